@@ -80,6 +80,8 @@ func c11Values() map[string]func() any {
 		"empty-slice": func() any { return []any{} },
 		"nil-slice":   func() any { var s []string; return s },
 		"ints":        func() any { return []int{1, 2, 3} },
+		"ints2":       func() any { return []int{255, 0} },
+		"strs":        func() any { return []string{"a", "b"} },
 		"map":         func() any { return map[string]any{"a": 1, "b": map[string]any{"c": "d"}} },
 		"nil-map":     func() any { var m map[string]any; return m },
 		"int-key-map": func() any { return map[int]string{1: "one", 2: "two"} },
@@ -133,6 +135,27 @@ func c11Funcs(name string) vuego.FuncMap {
 			"typed":   func(n int) int { return n * 2 },
 			"variad":  func(xs ...int) int { return len(xs) },
 			"ptrarg":  func(p *c11Priv) string { return p.Name },
+			// one function per parameter kind: the call converts whatever the data holds to the parameter type
+			"kArr3":    func(a [3]int) int { return a[0] },
+			"kArrPtr":  func(a *[2]int) int { return a[0] },
+			"kStrs":    func(a []string) int { return len(a) },
+			"kBytes":   func(a []byte) int { return len(a) },
+			"kMap":     func(m map[string]int) int { return len(m) },
+			"kChan":    func(c chan int) int { return cap(c) },
+			"kFunc":    func(f func() string) string { return f() },
+			"kStruct":  func(p c11Priv) string { return p.Name },
+			"kIntPtr":  func(p *int) int { return *p },
+			"kStringer": func(x fmt.Stringer) string { return x.String() },
+			"kErr":     func(e error) string { return e.Error() },
+			"kU8":      func(u uint8) uint8 { return u },
+			"kF32":     func(f float32) float32 { return f },
+			"kCplx":    func(c complex128) complex128 { return c },
+			"kBool":    func(b bool) bool { return b },
+			"kRune":    func(r rune) string { return string(r) },
+			"kDur":     func(d time.Duration) string { return d.String() },
+			"kVarAny":  func(xs ...any) int { return len(xs) },
+			"kVarArr":  func(xs ...[2]int) int { return len(xs) },
+			"kCtxArr":  func(ctx *vuego.VueContext, a [3]int) int { return a[2] },
 		}
 	}
 	return nil
@@ -541,6 +564,16 @@ func c11FuncCases(r *Run, id *int) []c11Case {
 			cases = append(cases, c11Case{ID: *id, Family: "functions", Entry: "string", Tpl: t, Data: dn, Funcs: "hostile"})
 		}
 	}
+	// parameter kinds x data kinds, as a direct call, as a filter and in a bound attribute
+	kinds := []string{"kArr3", "kArrPtr", "kStrs", "kBytes", "kMap", "kChan", "kFunc", "kStruct", "kIntPtr", "kStringer", "kErr", "kU8", "kF32", "kCplx", "kBool", "kRune", "kDur", "kVarAny", "kVarArr", "kCtxArr"}
+	datas := []string{"ints2", "ints", "strs", "array", "bytes", "string", "int", "neg", "float", "nil", "nil-slice", "nil-ptr", "struct", "struct-ptr", "map", "nil-map", "chan", "func", "error", "stringer", "slice", "uint8", "complex", "duration", "bool"}
+	for ki, k := range kinds {
+		for di, dn := range datas {
+			form := []string{`<p>{{ %s(v) }}</p>`, `<p>{{ v | %s }}</p>`, `<p :title="%s(v)">x</p>`, `<p>{{ %s(v, v) }}</p>`}[(ki+di)%4]
+			*id++
+			cases = append(cases, c11Case{ID: *id, Family: "functions", Entry: "string", Tpl: fmt.Sprintf(form, k), Data: dn, Funcs: "hostile"})
+		}
+	}
 	return cases
 }
 
@@ -612,7 +645,7 @@ func init() { streams["C11"] = runC11 }
 func runC11(r *Run) {
 	r.Imports = []string{"Model.Depth"}
 	r.Rule("isolated worker processes (64 MB maximum stack, address-space limit, 4 s per case): (include-graph) every include graph over 3 files with 0-2 includes per file, includes placed plainly, inside v-for and inside v-if, entered through Load.Render, Vue.Render and RenderFragment; (cycle-shapes) cycles through slot content, slot fallbacks, layouts and nested named slots; (slot-rings) up to three named slots handed to a layout, to a component, or through a layout to a component, the content of each using any other (every ring, chain and self-reference); (slot-shapes) 11 kinds of supplied slot content (text, element, <template v-html / v-if / v-for / v-text>, wrapper, include) x 6 ways a component uses the slot once, twice or three times x default / named; " +
-		"(wrong-type) 32 directive positions x 39 data values (every kind: nil pointers, typed nil, unexported fields, non-string map keys, functions, channels, panicking Stringer, deep and cyclic structs / maps / slices); (root-data) each value as the root data; (functions) panicking, nil, non-function, wrong-arity, multi-result template functions as filters and calls; (bytes) spliced, token-soup and random byte strings as template sources and front-matter. " +
+		"(wrong-type) 32 directive positions x 39 data values (every kind: nil pointers, typed nil, unexported fields, non-string map keys, functions, channels, panicking Stringer, deep and cyclic structs / maps / slices); (root-data) each value as the root data; (functions) panicking, nil, non-function, wrong-arity, multi-result template functions as filters and calls, and 20 parameter kinds (arrays, pointers to arrays, typed slices, maps, channels, functions, structs, interfaces, narrow numbers, variadic, context-taking) x 25 data kinds; (bytes) spliced, token-soup and random byte strings as template sources and front-matter. " +
 		"Outcome must be ok or error: a panic reaching the caller, a timeout or a dead worker is a violation")
 	id := 0
 	var cases []c11Case
